@@ -56,6 +56,14 @@ PROPS["C06"] = {
     "level_note": 'Same bounds and exclusions as C03; smallest workable limits are per codec (H264 3, H265 4, AV1 3, VP8 2, VP9 12) and stated as MLO in the bounds.',
     "runs": codec_runs("ZzC06", quick={"*": {"K": 1}}, thorough={"*": {"K": 2}}),
 }
+_M4A = [
+    R("mpeg4audio-%d-%d-%d" % cfg, "pkg/format/rtpmpeg4audio", "pkg/format/rtpmpeg4audio", ["ZzC03C06MPEG4Audio"],
+      params={"SL": cfg[0], "IL": cfg[1], "IDL": cfg[2]}, quick_params={"K": 1, "P": 10}, thorough_params={"K": 2, "P": 10, "N": 3},
+      tiers=("quick", "thorough") if cfg == (13, 3, 3) else ("thorough",))
+    for cfg in [(13, 3, 3), (6, 2, 2)]
+]
+PROPS["C03"]["runs"] += _M4A
+PROPS["C06"]["runs"] += _M4A
 PROPS["C07"] = {
     "level_text": "Inductive resynchronisation: from an ARBITRARY decoder pre-state (all internal fields symbolic within a small shape, constrained only by the accounting invariant) an intact frame A then an intact frame B are fed; B must come back intact exactly once at its last packet (H264: no later than the first packet of the following frame) with only 'more packets needed' before, and the invariant must be re-established. Any loss/duplication/reordering history leaves the decoder in some such state, so one verdict covers fault sequences of every length. H264, H265, AV1, VP8, VP9, fragmented, KLV.",
     "level_note": 'Trusted: the representation invariant of each decoder (Appendix A of DESIGN.md); pre-state shapes are small (<=2 pending fragments of <=3 bytes, <=1 buffered unit). Outside: MPEG-4 audio, MPEG-1 audio/video, AC-3, M-JPEG; explicit drop/dup/swap enumeration (covered through the inductive state).',
@@ -91,6 +99,13 @@ PROPS["C09"] = {
           quick_params={"NTOK": 2}, thorough_params={"NTOK": 3}, replay_repeat=400),
     ],
 }
+
+PROPS["C08"]["runs"] += [
+    R("mpeg4audio-hostile-%d-%d-%d" % cfg, "pkg/format/rtpmpeg4audio", "pkg/format/rtpmpeg4audio", ["ZzC08MPEG4AudioHist"],
+      params={"SL": cfg[0], "IL": cfg[1], "IDL": cfg[2]}, quick_params={"K": 1, "P": 12}, thorough_params={"K": 2, "P": 8},
+      tiers=("quick", "thorough") if cfg in [(13, 3, 3), (64, 0, 0)] else ("thorough",))
+    for cfg in [(13, 3, 3), (6, 2, 2), (64, 0, 0), (63, 1, 1), (32, 0, 0), (100, 0, 0), (1, 1, 1)]
+]
 
 # ---------------------------------------------------------------- root package kernels
 _EXTRAS = {"pkg/ringbuffer": "extra/ringbuffer", "internal/asyncprocessor": "extra/asyncprocessor"}
